@@ -12,7 +12,7 @@ LEVEL = "exploration"
 RULE = ("random definitions with identifier-safe names in all four control x calibration presence combinations, "
         "0-3 sensors x 1-4 readings (later sensors reuse reading names; an eighth of the programs 6-9 states with "
         "5-7 reading sensors; noise 1e-10..1e4 incl. Fraction/Rational values; case-sibling names), both CSE "
-        "settings, compiled constants read back (CFG), angle-wrap value units, EKF generator (every unit) and Model generator (every "
+        "settings, compiled constants read back (CFG), angle-wrap value units, an eighth of the programs with a |dt| term and steps in both directions, EKF generator (every unit) and Model generator (every "
         "third unit); header+source from the real generator are compiled with g++/clang++ under ASan+UBSan "
         "against the Eigen stand-in and driven through named Options fields / accessors at 4 points: "
         "ProcessModel::model, process_jacobian, control_jacobian, covariance, <Reading>SensorModel::model, "
@@ -204,6 +204,16 @@ def run_unit(unit, ctx):
         R.fps.append(fp)
     orc = O.Oracle(defn)
     pts = [gen.point(rng, defn, scale=rng.choice([0.1, 1.0, 1.0, 3.0])) for _ in range(N_POINTS)]
+    if i % 8 == 3:
+        # a model that is deliberately symmetric in time (|dt| scales one term) evaluated for steps in both
+        # directions: a managed filter steps backwards to a reading older than its state
+        s0 = defn["state"][0]
+        defn["model"][s0] = ["add", defn["model"][s0], ["mul", ["abs", ["s", "dt"]], ["cos", ["s", s0]]]]
+        orc = O.Oracle(defn)
+        for k_, pt_ in enumerate(pts):
+            if k_ % 2 == 1:
+                pt_["dt"] = -pt_["dt"]
+        R.stats.inc("programs_with_abs_dt_term_and_negative_steps")
     w = dict(defn=defn, cse=cse, compiler=compiler)
     b = build.Built(defn)
     for which in (["ekf", "model"] if i % 3 == 0 else ["ekf"]):
